@@ -1201,6 +1201,20 @@ pub mod verif_hooks {
                 .collect())
         }
 
+        /// `inline_ranges` of the function DIE `die_offset` of unit `unit_idx`
+        /// (ranges of its `DW_TAG_inlined_subroutine` descendants, as `step_over_any` sees them).
+        pub fn verif_function_inline_ranges(
+            &self,
+            unit_idx: usize,
+            die_offset: usize,
+        ) -> Vec<(u64, u64)> {
+            let func = FatDieRef::new_func(self, unit_idx, UnitOffset(die_offset));
+            func.inline_ranges()
+                .iter()
+                .map(|r| (r.begin, r.end))
+                .collect()
+        }
+
         /// `prolog_end_place` of the function DIE `die_offset` of unit `unit_idx`
         /// (what a function breakpoint resolves to).
         pub fn verif_prolog_end_place(
